@@ -163,7 +163,19 @@ Arguments project {X Y}.
 
 (** ---- the four elections of election.py as instances ([Election.v]) ---- *)
 Inductive election_kind :=
-| EMajority | EMinApproval (a : Z) | EOrdered (a c : Z) | EConfirmed (p : confirmed).
+| EMajority | EMinApproval (a : Z) | EOrdered (a c : Z) | EConfirmed (p : confirmed)
+| EPositional (ws : list Z) (thr : Z).
+
+(** a user-defined election (harness/c12.py: PositionalElection) whose verdict depends on *which*
+    positions alarm: the shipped elections only count, so they cannot tell the order of the list *)
+Fixpoint weigh (f : dstate -> bool) (ws : list Z) (l : list dstate) : Z :=
+  match ws, l with
+  | w :: ws', d :: l' => (if f d then w else 0) + weigh f ws' l'
+  | _, _ => 0
+  end.
+Definition positional (ws : list Z) (thr : Z) (l : list dstate) : dstate :=
+  if thr <=? weigh is_drift ws l then DDrift
+  else if thr <=? weigh (fun d => negb (is_none d)) ws l then DWarn else DNone.
 
 (** only ConfirmedElection keeps state: [wait_period_counters], [None] before its first call *)
 Definition estate := option (list Z).
@@ -174,6 +186,7 @@ Definition elect_of (k : election_kind) (s : estate) (l : list dstate) : dstate 
   | EMinApproval a => (min_approval a l, s)
   | EOrdered a c => (ordered_approval a c l, s)
   | EConfirmed p => confirmed_call p s l
+  | EPositional ws thr => (positional ws thr l, s)
   end.
 
 (** ---- members of different kinds in one ensemble: packed machines ---- *)
